@@ -10,9 +10,10 @@ import Driver.Schema
 import Driver.StreamBytes
 import Driver.GoBind
 import Driver.TypedAsm
+import Driver.EnumKey
 open Ipld.Driver
 
-def handlers : List (List String → Option String) := [cborHandler, asmHandler, linkHandler, jsonHandler, walkHandler, storeHandler, xformHandler, bindHandler, schemaHandler, streamHandler, gobindHandler, tasmHandler]
+def handlers : List (List String → Option String) := [cborHandler, asmHandler, linkHandler, jsonHandler, walkHandler, storeHandler, xformHandler, bindHandler, schemaHandler, streamHandler, gobindHandler, tasmHandler, enumKeyHandler]
 
 def dispatch (line : String) : String :=
   let toks := (line.trimAscii.toString.splitOn " ").filter (· ≠ "")
